@@ -47,6 +47,10 @@ CHECKS = {
             "§6 C12",
             "universally quantified gate theorems + exhaustive gate enumeration (fault enumeration over the finite flip sets) + correspondence",
             "Gates of the Hyper-V, envelope/keystore and key-safe parsers are enumerated against the real code (implementation vs expectation); their Lean models belong to C15-C17. Only raised-vs-returned is compared. VMDK(fh) deliberately treats a file without sparse magic as a flat extent (not a gate)."),
+    "C20": ("Lean 4 theorems visor_member_extracts_stored_bytes (every listed visor member with a recorded data offset extracts to file[offset, offset+size), offset = the little-endian word at header+496, for every file content / member count / order / placement, GNU long names included), visor_next_header_adjacent, plain_tar_unchanged (visor-aware listing = standard listing on archives without visor data offsets; induction over the iteration), vmtar_listing_terminates (fuel size/512+2 always suffices) over a model of VisorTarInfo.frombuf/_proc_member and the inherited CPython tarfile iteration (nts, nti incl. base-256, checksums, frombuf, _proc_builtin, _proc_gnulong, next, extractfile); slice positions/magic/struct formats in VisorTarInfo.frombuf re-extracted from the source on every run; independent archive writer; real code vs model vs construction truth (and vs tarfile.open for plain archives)",
+            "§6 C20",
+            "unbounded proof (induction over the member iteration) + extraction + differential correspondence",
+            "Modelled, not verified: CPython tarfile (transcribed from 3.12). Outside the model (reported as unsupported, never compared): pax headers, old GNU sparse members, int()'s signed/0o/underscore octal spellings. A visor prefix field of 151 bytes without NUL is compared model-vs-implementation only (the property speaks about extracted bytes)."),
 }
 
 NOT_YET = {
